@@ -62,7 +62,22 @@ def run(rep, tier):
     rep.rule('R5', 'label references (as C05-R7/R7b): the offsets listed for the directives behind a reference that had to grow are the '
              'offsets of the final layout (every directive starts where the previous one ends), and a reference that is longer than its '
              'final operand needs is emitted with the listed number of bytes', floor=20)
+    rep.rule('R6', 'the image is the same on every kind of output: the emitter counts the bytes it writes itself and never derives an offset from '
+             'the stream position (tellp / seekp answer -1 on a pipe or FIFO, e.g. -o /dev/stdout, so alignment padding computed from '
+             'them silently disappears while the listing still shows it)', floor=1)
     rep.rule('R4', 'both listing entry points print the CodeGen object that emitBin would emit, after label resolution', floor=2)
+    asked = []
+    for fn in ('hexasm::CodeGen::emitProgramBin', 'hexasm::CodeGen::emitBin', 'hexasm::CodeGen::emitDebugInfo'):
+        g = idx.func(fn, required=False)
+        if g is None or g.body is None:
+            continue
+        for c in cast.calls_in(g.body):
+            if callee_of(c)[1] in ('tellp', 'seekp', 'tellg', 'seekg'):
+                asked.append('%s in %s at %s' % (callee_of(c)[1], fn.split('::')[-1], pos(c)))
+    rep.add('R6', 'emitter:offsets-are-counted', not asked, pos(idx.func('hexasm::CodeGen::emitProgramBin').node) + ' hexasm::CodeGen',
+            ('byte offsets are taken from the stream position (%s): on a non-seekable output they are all -1, so no alignment padding is '
+             'written and every DATA word and what follows sits lower in the image than listed' % '; '.join(asked)) if asked else
+            'no stream position query in the emitter')
     f = idx.func('hexasm::CodeGen::emitProgramText')
     rep.analysed(f.sig)
     where = pos(f.node) + ' hexasm::CodeGen::emitProgramText'
